@@ -94,15 +94,17 @@ func decToMinDec(dec float64, latitude bool) string {
 		sign = ' '
 	}
 
-	deg := int(dec)
-	min := (dec - float64(deg)) * 60.0
+	// Round to the printed precision (1/10000 minute) before splitting into degrees and
+	// minutes, so that a value just below a whole minute carries instead of printing 60.0000.
+	units := int64(math.Round(math.Abs(dec) * 60 * 10000))
+	deg, min := units/(60*10000), float64(units%(60*10000))/10000
 
 	var format string
 	if latitude {
-		format = "%02.0f-%07.4f%c"
+		format = "%02d-%07.4f%c"
 	} else {
-		format = "%03.0f-%07.4f%c"
+		format = "%03d-%07.4f%c"
 	}
 
-	return fmt.Sprintf(format, math.Abs(float64(deg)), math.Abs(min), sign)
+	return fmt.Sprintf(format, deg, min, sign)
 }
